@@ -213,13 +213,17 @@ def enrich(prog, rng, max_in=3, max_inputs=10, max_choices=4, dstcap=3):
                 widest = max(widest, int(m.group(1)) // 8)
             elif n["c"].startswith("limited_copy_u32") or n["c"] in ("copy_from_slice",):
                 widest = max(widest, 4)
+    widew = any(n["k"] == "Expr" and n["a"] == "." and (re.match(r"write_u(16|24|32|40|48|56|64)", n["c"] or "") or (n["c"] or "").startswith("limited_copy_u32_from"))
+                for n in N)
+    if widew:
+        dstcap = max(dstcap, 4)         # room for a multi-byte write / a copy behind some history
     if widest > max_in:
         ln = min(widest + 1, 9)
         small = [a for a in alpha if a < 64] or [0]
-        extra = [[rng.choice(small) if i < 3 else 0 for i in range(ln)] for _ in range(2)]
-        extra.append([rng.choice(alpha) for _ in range(ln)])
-        extra.append([(i + 1) & 0x3F for i in range(ln)])
+        extra = [[rng.choice(small) if i < 3 else 0 for i in range(ln)], [(i + 1) & 0x3F for i in range(ln)]]
         inputs += [e for e in extra if e not in inputs]
+    if not any(p["kind"] == "reader" for f in funcs for p in f["params"]):
+        inputs = [[]]                   # no function takes a source: its contents cannot matter
     statuses = []
     for si in d["statuses"] or []:
         statuses.append(prog.nd(si)["c"])
@@ -325,7 +329,7 @@ static void hex(const uint8_t* p, size_t n) {
             o.append("  }\n")
         o.append("  if (!known) { printf(\"R ?unknown\\n\"); return; }\n"
                  "  printf(\"R %s|%zu|%zu|\", st ? st : \"-\", g_src.meta.ri, g_dst.meta.wi);\n"
-                 "  hex(g_out, g_dst.meta.wi);\n  printf(\"|%lld\\n\", ret);\n}\n")
+                 "  hex(g_out, g_dst.meta.wi);\n  printf(\"|%lld|%zu|%d\\n\", ret, g_src.meta.wi, (int)g_src.meta.closed);\n}\n")
     o.append("int main(void) {\n  static char line[4096];\n  while (fgets(line, sizeof line, stdin)) {\n"
              "    char* tok[64]; int nt = 0;\n    for (char* t = strtok(line, \" \\n\"); t && nt < 64; t = strtok(NULL, \" \\n\")) tok[nt++] = t;\n"
              "    if (nt == 0) continue;\n"
@@ -359,8 +363,9 @@ def parse_reply(line):
     if not line.startswith("R "):
         return None
     parts = line[2:].rstrip("\n").split("|")
-    if len(parts) != 5:
+    if len(parts) != 7:
         return None
     st = None if parts[0] == "-" else parts[0]
     out = [] if parts[3] == "-" else [int(parts[3][i:i + 2], 16) for i in range(0, len(parts[3]), 2)]
-    return {"st": st, "ri": int(parts[1]), "dwi": int(parts[2]), "out": out, "ret": int(parts[4])}
+    # swi / sclosed: the source's write index and closed flag AFTER the call (the callee must leave them as passed)
+    return {"st": st, "ri": int(parts[1]), "dwi": int(parts[2]), "out": out, "ret": int(parts[4]), "swi": int(parts[5]), "sclosed": int(parts[6])}
